@@ -9,6 +9,9 @@
 
 static const int DEPTHS[] = { 1, 2, 3, 4, 10, 40, 255 };
 
+static uint64_t cb_hits;
+static void count_cb(binson_parser *p, uint16_t next_state, void *ctx) { (void)p; (void)next_state; (*(uint64_t *)ctx)++; }
+
 static void make_doc(vrng *r, vbuf *d, int *root)
 {
     *root = vrn(r, 3) ? K_OBJ : K_ARR;
@@ -46,6 +49,14 @@ static void one_case(vrng *r)
     vbuf junk; memset(&junk, 0, sizeof junk);
     vsctx cxa; memset(&cxa, 0, sizeof cxa);
     bool inita = roota == K_OBJ ? binson_parser_init_object(used, bufa, da.n) : binson_parser_init_array(used, bufa, da.n);
+    bool prev_cb = inita && vrn(r, 5) == 0;
+    if (prev_cb) { used->cb = count_cb; used->cb_context = &cb_hits; }      /* the previous user installed a token callback (public fields) */
+    if (inita && vrn(r, 4) == 0) {
+        /* the previous use was a complete traversal: enter the root, leave it (everything skipped and validated) */
+        bool b = roota == K_OBJ ? binson_parser_go_into_object(used) : binson_parser_go_into_array(used);
+        if (b) b = roota == K_OBJ ? binson_parser_leave_object(used) : binson_parser_leave_array(used);
+        vw_count("previous_use_complete_traversal", 1);
+    } else
     if (inita) for (int i = 0; i < na; i++) { vs_exec(used, bufa, da.n, &cxa, &opsA[i], &junk); vb_reset(&junk); }
     binson_err errA = used->error_flags;
     bool garbage = vrn(r, 3) == 0;
@@ -65,6 +76,20 @@ static void one_case(vrng *r)
     vsctx cxu, cxf; memset(&cxu, 0, sizeof cxu); memset(&cxf, 0, sizeof cxf);
     fresh->state = stf; fresh->max_depth = (uint_fast8_t)depth;
     bool skip = false;
+    bool samebuf = how == 0 && !garbage && vrn(r, 3) == 0;
+    if (samebuf) {
+        /* re-init on the very same buffer address and length, possibly as the other root kind, possibly with new content */
+        bb = bufa; bn = da.n; rb = vrn(r, 3) ? roota : (roota == K_OBJ ? K_ARR : K_OBJ);
+        if (da.n && vrn(r, 2)) { size_t at = vrn(r, (uint32_t)da.n); bufa[at] = (uint8_t)(bufa[at] ^ (1u << vrn(r, 8))); }
+        vw_count("restart_init_same_buffer", 1);
+    }
+    if (how >= 1 && inita && da.n > 2 && vrn(r, 3) == 0) {
+        /* the next message arrived in the same buffer (same length): content changes in place before reset / verify */
+        size_t at = 1 + vrn(r, (uint32_t)da.n - 2);
+        bufa[at] = (uint8_t)(bufa[at] ^ (1u << vrn(r, 8)));
+        vw_count("restart_after_buffer_changed_in_place", 1);
+    }
+    cb_hits = 0;
     if (how == 0) {
         bool iu = rb == K_OBJ ? binson_parser_init_object(used, bb, bn) : binson_parser_init_array(used, bb, bn);
         bool ifr = rb == K_OBJ ? binson_parser_init_object(fresh, bb, bn) : binson_parser_init_array(fresh, bb, bn);
@@ -106,6 +131,10 @@ static void one_case(vrng *r)
         if (errA != BINSON_ERROR_NONE) vw_count("restart_after_error", 1);
         if (garbage) vw_count("restart_after_garbage", 1);
     } else vw_count("skipped_no_prior_init", 1);
+    if (!skip && how == 0 && prev_cb && cb_hits) {
+        vw_violation("c12:callback-survives-init", "a token callback installed during the previous use was still invoked %llu times after binson_parser_init_*", (unsigned long long)cb_hits);
+    }
+    if (prev_cb) vw_count("previous_use_installed_callback", 1);
     if (diverged_at >= 0) {
         vbuf o; memset(&o, 0, sizeof o);
         vb_printf(&o, "a reused parser behaves differently from a fresh one after '%s' (first difference at %s %d)\nprevious use: %s-rooted %zu bytes ",
